@@ -79,6 +79,99 @@ def async_scenario(env, ack_args, coro_handlers=True):
     return scenario
 
 
+def two_calls_scenario(ack_args):
+    """Two overlapping call()s to the same client: A is never acknowledged
+    and times out (2 s), B (timeout far beyond the run) is acknowledged.
+    Every interleaving of A's expiry with B's start and B's ACK."""
+    def scenario(loop):
+        loop.setup = True
+        w = ServerWorld(is_async=True, loop=loop, namespaces=['/'])
+        sio = w.sio
+        t = w.new_transport()
+        w.recv_packet(t, 0, '/')
+        sock = w.transports[t]
+        sid = w.sid_of(t, '/')
+        w.drain_all()
+        loop.setup = False
+        loop.time_limit = 100
+        res = {}
+        marks = []
+        seen = []
+
+        async def caller(tag, timeout):
+            await loop.point('start:call' + tag)
+            try:
+                res[tag] = ('value', await sio.call('q' + tag, 1, to=sid,
+                                                    timeout=timeout))
+            except Exception as e:
+                res[tag] = ('exc', type(e).__name__)
+
+        async def ack_b():
+            for attempt in range(2):
+                await loop.point('ackB-%d' % attempt)
+                seen.extend(f for f in w.drain(t) if f[0] == 'pkt')
+                ids = [f[3] for f in seen if f[1] == 2 and f[4][0] == 'qB']
+                if ids:
+                    marks.append(('ackB', sio.manager.is_connected(sid, '/')))
+                    for f in w.encode(3, '/', ids[0], ack_args):
+                        await sock.receive(
+                            eio_packet.Packet(eio_packet.MESSAGE, f))
+                    return
+            marks.append(('ackB-nothing',))
+        loop.create_task(caller('A', 2))
+        loop.create_task(caller('B', 1000))
+        loop.create_task(ack_b())
+
+        def finish(hit):
+            return {'res': dict(res), 'marks': marks, 'horizon': hit,
+                    'errors': loop.collect_errors(),
+                    'parked': [lb for lb, f in loop.parked if not f.done()]}
+        return finish
+    return scenario
+
+
+def judge_two(ack_args, out):
+    v = []
+    if out['horizon'] or out['parked']:
+        return [('C06/call-stuck', f'two calls: {out}')]
+    if out['errors']:
+        v.append(('C06/call-loop-error', f'two calls: {out["errors"]}'))
+    res = out['res']
+    if res.get('A') != ('exc', 'TimeoutError'):
+        v.append(('C06/call-timeout', f'two calls: A was never '
+                  f'acknowledged, call() gave {res.get("A")!r}'))
+    if ('ackB', True) in out['marks']:
+        want = expected(ack_args)
+        b = res.get('B')
+        if b is None or b[0] != 'value' or not _teq(b[1], want):
+            v.append(('C06/call-result', f'two calls: B was acknowledged '
+                      f'{ack_args!r} long before its timeout, call() gave '
+                      f'{b!r} (A: {res.get("A")!r}, marks {out["marks"]})'))
+    return v
+
+
+def job_two(ack_args):
+    common.setup_imports()
+    viols = []
+
+    def on(choices, out):
+        for key, msg in judge_two(ack_args, out):
+            if len(viols) < 3:
+                viols.append((key, msg, {'replay': {
+                    'module': 'mc.checks.c06_call', 'func': 'replay_two',
+                    'args': [common.jsonable(ack_args),
+                             [c[1] for c in choices]]}}))
+    st = e2.explore(two_calls_scenario(ack_args), on)
+    return st, viols
+
+
+def replay_two(ack_args, prefix):
+    common.setup_imports()
+    ack_args = common.unjson(ack_args)
+    choices, out = e2.run_one(two_calls_scenario(ack_args), list(prefix))
+    return judge_two(ack_args, out)
+
+
 def judge(env, ack_args, out):
     v = []
     if out['horizon'] or out['parked']:
@@ -172,10 +265,19 @@ def run(tier, seed, result):
             result.violation(key, msg, wit)
         if sample and env == ('ack', 'cdisc'):
             result.sample({'call_env': list(env), 'schedule': sample[0]})
+    two = 0
+    for st, viols in pmap(job_two, [ACKS[1], ACKS[3]]):
+        two += st['executions']
+        if not st['complete']:
+            raise common.HarnessError('two-call exploration incomplete')
+        for key, msg, wit in viols:
+            result.violation(key, msg, wit)
+    total += two
     result.add('schedules', total)
     result.add('states', total)
     result.add('transitions', total)
-    note = f'call() on AsyncServer: {total} schedules over {len(jobs)} ' \
+    note = f'two overlapping call()s, one expiring: {two} schedules | ' \
+           f'call() on AsyncServer: {total} schedules over {len(jobs)} ' \
            f'(environment, ack payload) pairs, all interleavings'
     try:
         from . import c06_call_threads
